@@ -39,7 +39,7 @@ RULE = ("seeded generator (VERIF_SEED). S: scripted peer vs real endpoint (roles
         "honest prefix + every single deviation at every position, every truncation and every length/count field perturbation of every message body, "
         "ClientHello/ServerHello versions 0x0000..0x0400 (quick: stride + boundaries) x suite lists, random sequences up to length 12, certificate-kind mixes; "
         "H: real client vs real server for every mode pair x ClientAuth x suites x tickets x resumption x MaxVersion; V: version gate black box; "
-        "R: an otherwise honest scripted peer (genuine key exchange and verify_data through hooks) re-packing its flights into records (every coalescing, Finished in the clear before ChangeCipherSpec, ChangeCipherSpec twice / early / missing) and offering ClientHello versions in the gap 0x0102..0x02ff; per-extension perturbations of ClientHello/ServerHello (every extension type x body lengths 0,1,2,len-1,len+1 x position); PK/PS/PR/PH: byte-level parsers through hooks; PM: every handshake message of every S case (all truncations, length-field pokes, the per-extension matrix) plus exhaustive short inputs, structured random ClientHello/ServerHello extension blocks, certificate lists with overrunning entries, both hasSignatureAndHash flags - fed to the real unmarshal of each of 12 message types and to the byte-level model, every parsed field compared. Non-trivial: every case except the empty script; distinct = distinct case text")
+        "R: an otherwise honest scripted peer (genuine key exchange and verify_data through hooks) re-packing its flights into records (every coalescing, Finished in the clear before ChangeCipherSpec, ChangeCipherSpec twice / early / missing) and offering ClientHello versions in the gap 0x0102..0x02ff; per-extension perturbations of ClientHello/ServerHello (every extension type x body lengths 0,1,2,len-1,len+1 x position); PK/PS/PR/PH: byte-level parsers through hooks; PM: every handshake message of every S case (all truncations, length-field pokes, the per-extension matrix) plus exhaustive short inputs, structured random ClientHello/ServerHello extension blocks, certificate lists with overrunning entries, both hasSignatureAndHash flags - fed to the real unmarshal of each of 12 message types and to the byte-level model, every parsed field compared; PW: message VALUES (the parsed fields of every accepted PM case, random values inside the canonical domain with edge lengths, and values outside it) marshalled by the real marshal() and by the byte-level model, output bytes compared, and unmarshal(marshal(m)) = m checked on both sides. Non-trivial: every case except the empty script; distinct = distinct case text")
 
 STATIC_FINDINGS = ()
 
@@ -77,7 +77,9 @@ def nontrivial(f):
 
 
 def classify(f, io):
-    k = f[0] + (":" + f[2] if f[0] in ("S", "H", "V", "R", "PM") else "")
+    k = f[0] + (":" + f[2] if f[0] in ("S", "H", "V", "R", "PM", "PW") else "")
+    if f[0] == "PW":
+        return k + ":wf" + f[4] + ":rt" + (io[-1] if io else "none")
     return k + ":" + (io[0] if io else "none")
 
 
@@ -101,6 +103,12 @@ def predicate(f, io):
             return False, "handshake reported complete although the peer deviated (packing/order %s, client_version %s)" % (f[6], f[5])
         if io[0] not in ("ok", "err"):
             return False, "unexpected outcome " + io[0]
+        return True, ""
+    if op == "PW":
+        # marshal of a message value inside the canonical domain must be parsed back to the same value by the
+        # package's own unmarshal (computed by the hook, independent of the model)
+        if f[4] == "1" and io[-1] != "1":
+            return False, "unmarshal(marshal(m)) != m for a well-formed message value of type " + f[2]
         return True, ""
     if op == "H":
         # both ends complete or both fail: never one side complete with the other failed
